@@ -121,6 +121,61 @@ CLAIMED = {
              "and sustained load must complete within a watchdog under several GOMAXPROCS.",
         note="Assumed: a blocked Mutex.Lock proceeds once the mutex is free.",
         ref="DESIGN.md §6 C15"),
+    "C12": dict(
+        technique="Lean 4 + Mathlib theorems over an arbitrary field/module (Feldman VSS consistency, Lagrange recovery, fewer-than-t failure, order independence, parameter bounds) + protocol model + differential dkg engine over real process instances + Lean-driver Lagrange recovery over Z_r from extracted shares",
+        text="Partial (crypto library assumed). Theorems C12_share_consistent, C12_same_key, C12_recover (any t ids recover the group "
+             "secret applied to any point), C12_fewer_fail, C12_bounds (accepted iff 1<=n, n<2t, t<=n with the code's integer "
+             "division), C12_protocol_success. Tie: n real process/standard instances joined through the real receiver handlers; "
+             "all (n,t) incl. every t outside the range, id sets small/sparse/near 2^64, different initiators, delayed and tampered "
+             "commit replies; on success the relation vector the theorems name is checked with the BLS library (same composite "
+             "key/vector/threshold/participants, share vs vector, every t-subset recovers, no (t-1)-subset does, immediate sign+list) "
+             "and the secret recovered by the Lean driver's own Lagrange interpolation over Z_r maps to the composite key.",
+        note="Assumed: herumi BLS (field/group laws, hash-to-curve, Recover), CSPRNG. Real gRPC between daemons is unavailable in the sandbox (peer names do not resolve); messages pass the real receiver handlers after a protobuf round trip.",
+        ref="DESIGN.md §6 C12", engine="lean+dkg"),
+    "C13": dict(
+        technique="Lean 4 theorems on the message-level cluster model (rejected contributions store nothing, only a successful commit creates an account, aggregation in range) + complete enumeration of fault kinds x message positions on real instances",
+        text="Theorems C13_reject, C13_accounts_only_by_commit, C13_no_account, C13_no_crash, C13_legacy_counterexample. Tie: for small "
+             "(n,t) every fault kind (lost, error reply, share replaced, commitment altered, vector short/long/long-with-neutral-entry, "
+             "altered reply share/vector, duplicate) at every prepare/execute/contribute position through the routing sender: the "
+             "generation must end in an error, no instance may hold the account, no process may die, and a clean generation must work afterwards.",
+        note="Cryptographic validity of a share is abstract in the model (valid / invalid + vector length); the BLS library decides it in the run.",
+        ref="DESIGN.md §6 C13", engine="lean+dkg"),
+    "C14": dict(
+        technique="Lean 4 + Mathlib theorem (quorum intersection over Finset + per-instance C01/C02 invariants) + differential cluster engine with a real distributed account + Lean quorum judge + BLS combination of partial signatures",
+        text="Theorems C14 / C14_proposals: for n independent instance models, any routing/order/repetition of operations and any pair of "
+             "conflicting duties, the sets of instances that released a signature for each cannot both reach t when 2t>n; "
+             "C14_threshold_from_generation links 2t>n to the generation bounds. Tie: a really generated distributed account on n real "
+             "instances with separate rules stores; conflicting duty pairs routed to random subsets/interleavings with repeats; "
+             "per-instance verdicts diffed with the model; the Lean judge counts partial signatures per duty; partial signatures of a "
+             "duty that reached t are combined by the BLS library and verified under the composite key over the model's signing root.",
+        note="Concurrency inside one instance is reduced to a serial order by C04. Assumed: BLS library.",
+        ref="DESIGN.md §6 C14", engine="lean+dkg"),
+    "C16": dict(
+        technique="Lean 4 theorems on the receiver-handler model (non-peers refused with state unchanged; reply share indexed by the authenticated caller) + complete enumeration of caller kinds x messages x instances x session states on the real handlers",
+        text="Theorems C16_refuse_non_peer (all five handlers return unknown-sender and leave the cluster unchanged when the caller's "
+             "authenticated name is not a configured peer), senderId_ne_zero_iff, C16_share_owner. Tie: real receiver.Handler with "
+             "context-injected names (clients with full permissions, empty, unknown, case-changed, near-miss, unconfigured signer) x "
+             "5 messages x instances x states none/prepared/executed/committed, generation then completed by a peer; share ownership for "
+             "all ordered participant pairs checked with the BLS library (the reply's share verifies at the caller's id only).",
+        note="TLS authentication itself is C19; here the authenticated name is injected into the context the way the interceptor does.",
+        ref="DESIGN.md §6 C16", engine="lean+dkg"),
+    "C17": dict(
+        technique="Lean 4 theorems on the session state machine (one-per-name lifecycle, commit completeness, independence of names) + differential life engine with real timeouts + Lean judge on commit completeness",
+        text="Theorems C17_prepare_twice, C17_requires_active, C17_gone_after (commit/abort/timeout), C17_restart_allowed, "
+             "C17_commit_complete (a successful commit implies every listed participant contributed), C17_independent_names. Tie: "
+             "hand-written and seeded event sequences over two account names on real instances with a 3 s generation timeout and real "
+             "sleeps; reply classes and account presence diffed with the model; every successful commit judged on the model state.",
+        note="Event sequences are restricted to those whose outcome does not depend on Go's map iteration order. The model clock advances only by explicit sleeps (chosen far from the timeout).",
+        ref="DESIGN.md §6 C17", engine="lean+dkg"),
+    "C18": dict(
+        technique="Lean 4 theorems (membership characterisation of the listing: sound, complete, own fields, dynamic creation) + differential list engine + Lean-spec judge with whole-name matching",
+        text="Theorems mem_listAccounts / C18_sound / C18_complete / C18_fields / C18_dynamic over the lister model for all populations, "
+             "permission configurations, clients and path lists. Tie: generated wallet/account populations, per-account permission "
+             "tables, path lists (wallet only, regex, trailing slash, unknown, case variants, malformed, duplicates), listings before "
+             "and after accounts created through dirk; result multisets diffed with the model and judged sound/complete by the Lean "
+             "specification (firstBearing + whole-name match); each entry's key cross-checked with the fetcher.",
+        note="Over-listing inside accessible accounts of a requested wallet (the lister's un-grouped anchoring) is not flagged: C18 as stated allows it.",
+        ref="DESIGN.md §6 C18"),
 }
 
 
@@ -142,7 +197,7 @@ def main():
             "thorough_cmd": "./check %s --tier thorough" % pid,
             "evidence_file": "/verif/evidence/%s.json" % pid,
             "replay_cmd_template": "./check %s --replay {path}" % pid,
-            "engine": c.get("engine", "lean+hist"),
+            "engine": c.get("engine", "lean+dh"),
             "level_claimed": {"category": "proof", "text": c["text"], "design_ref": c["ref"]},
             "level_note": c["note"],
             "technique": c["technique"],
